@@ -63,7 +63,7 @@ def render_once(t, bindings):
 @st.composite
 def det_cases(draw):
     base = draw(tstrat.templates(depth=2, tales=True, max_elems=8,
-                                 repeat_probes=True))
+                                 repeat_probes=True, dict_attrs=True))
     seq = [base["bindings"]]
     for _ in range(draw(st.integers(1, 3))):
         seq.append(draw(tstrat.bindings_strategy()))
